@@ -11,6 +11,7 @@ import SsqlVerif.Proofs.WatermarkBound
 import SsqlVerif.Proofs.WatermarkSources
 import SsqlVerif.Proofs.TumblingHist
 import SsqlVerif.Proofs.SlidingLate
+import SsqlVerif.Proofs.SessionLate
 import SsqlVerif.Generated.Facts
 set_option autoImplicit false
 
@@ -311,6 +312,41 @@ theorem session_open_entry_redelivered (w : SWin) (k : Key) (r : Row) (now : Int
     simp [hlate, hl, ht']
   obtain ⟨hem, hmem, hkey, hslot, _, _⟩ := session_late_update w k r now t' hf
   exact ⟨t', hmem, hkey, hslot, hem⟩
+
+/-- **Late update, every history.** In every reachable state (any interleaving of Adds, ticker updates and expiry
+passes from the start, ALLOWEDLATENESS > 0): a late row of the key of a session `e` that was delivered before, with a
+timestamp inside it, arriving while the watermark has not passed `e.stop + ALLOWEDLATENESS`, is re-delivered — the Add
+emits exactly one late result, of a registered session of that key that contains the row, with that session's rows
+followed by the row.  (False before /repo abc3247: a later session of the key firing under the reused map key dropped
+the registration; `session_fired_registered` and `session_registered_kept` are its one-step parts.) -/
+theorem session_late_row_redelivered_run (timeout ooo lateness : Int) (ht : 0 < timeout) (hl : 0 < lateness) (ops : List Op)
+    (e : Emission) (he : e ∈ (run (init timeout ooo lateness) ops).2) (hfirst : e.late = false)
+    (r : Row) (now : Int) (hin : e.start ≤ r.ts ∧ r.ts < e.stop)
+    (hlate : lateNow (run (init timeout ooo lateness) ops).1 r now = true)
+    (hopen : ∀ c, (wmAfter (run (init timeout ooo lateness) ops).1 r now).cur = some c → c < e.stop + lateness) :
+    ∃ t' ∈ (run (init timeout ooo lateness) ops).1.trig, t'.sess.key = e.key ∧ (t'.sess.start ≤ r.ts ∧ r.ts < t'.sess.stop) ∧
+      (stepAdd (run (init timeout ooo lateness) ops).1 e.key r now).2 =
+        [{ late := true, key := e.key, start := t'.sess.start, stop := t'.sess.stop, rows := t'.sess.rows ++ [r] }] := by
+  have hlat : (run (init timeout ooo lateness) ops).1.lateness = lateness := by rw [run_lateness]; rfl
+  have hreg := reg_run (init timeout ooo lateness) ops [] (inv_init timeout ooo lateness ht) hl
+    (by intro e he; cases he)
+  rw [List.nil_append] at hreg
+  rcases hreg e he hfirst with ⟨t, ht', hk, hs, hp, hc⟩ | hb
+  · rw [hlat] at hc
+    have hop : stillOpen (wmAfter (run (init timeout ooo lateness) ops).1 r now).cur t = true := by
+      unfold stillOpen
+      split
+      · rfl
+      · rename_i c hcur
+        have := hopen c hcur
+        simp only [decide_eq_true_eq]; omega
+    exact session_open_entry_redelivered _ e.key r now t (by rw [hlat]; exact hl) hlate ht' hk
+      (by rw [hs, hp]; exact hin) hop
+  · exfalso
+    rw [hlat] at hb
+    obtain ⟨y, hy, hle⟩ := Tumbling.updateEventTime_cur _ r.ts now _ hb
+    have := hopen y hy
+    omega
 
 end session
 
